@@ -98,6 +98,44 @@ func init() {
 	sort.Strings(ArchList)
 }
 
+// Account is a user or group of the local account files.
+type Account struct {
+	Name string
+	ID   uint32
+}
+
+// Users and Groups are read from /etc/passwd and /etc/group by a parser of the harness' own (names that
+// consist of letters, digits, '_' and '-' only, so that they are not mistaken for numbers).
+var Users, Groups = readAccounts("/etc/passwd"), readAccounts("/etc/group")
+
+func readAccounts(path string) []Account {
+	b, err := os.ReadFile(path)
+	if err != nil {
+		return nil
+	}
+	var out []Account
+	seen := map[string]bool{}
+	for _, line := range strings.Split(string(b), "\n") {
+		f := strings.Split(line, ":")
+		if len(f) < 3 || f[0] == "" || seen[f[0]] {
+			continue
+		}
+		ok := f[0][0] < '0' || f[0][0] > '9'
+		for i := 0; i < len(f[0]); i++ {
+			c := f[0][i]
+			ok = ok && (c == '_' || c == '-' || c >= '0' && c <= '9' || c >= 'a' && c <= 'z' || c >= 'A' && c <= 'Z')
+		}
+		id, err := strconv.ParseUint(f[2], 10, 32)
+		if !ok || err != nil {
+			continue
+		}
+		seen[f[0]] = true
+		out = append(out, Account{f[0], uint32(id)})
+	}
+	sort.Slice(out, func(i, j int) bool { return out[i].Name < out[j].Name })
+	return out
+}
+
 // ---------------------------------------------------------------------------
 // specification of a rule
 
@@ -546,8 +584,16 @@ func GenFilter(t *rapid.T, list string, o Opts, haveArch *string) (Filter, strin
 		if v == 0xffffffff && rapid.Bool().Draw(t, "unsetspelling") {
 			txt = pick(t, "unset", []string{"unset", "-1"})
 		}
-		if v == 0 && !o.Strict && rapid.Bool().Draw(t, "byname") {
-			txt = "root" // user and group 0 are called root on every Linux system
+		if !o.Strict && rapid.IntRange(0, 3).Draw(t, "byname") == 0 {
+			// by name: resolved by the harness' own reading of /etc/passwd (users) and /etc/group (groups)
+			db := Users
+			if kind == "gid" {
+				db = Groups
+			}
+			if len(db) > 0 {
+				e := pick(t, "account", db)
+				txt, v = e.Name, e.ID
+			}
 		}
 		f = flt(name, op, []byte(txt), v, kind)
 	case "strx", "stra", "path":
